@@ -1,0 +1,14 @@
+//go:build verif
+
+package search
+
+// SimYield, when set, is called at the top of every abort poll of a running
+// search. It exists for the deterministic-simulation harness only (build tag
+// verif); the shipped build compiles simYield to an empty function.
+var SimYield func(*Search, *Options)
+
+func simYield(s *Search, opts *Options) {
+	if SimYield != nil {
+		SimYield(s, opts)
+	}
+}
